@@ -232,7 +232,7 @@ def gen_case(rng, scenario=None):
     elif r < .32:
         case["repr"] = "dspdist"
     else:
-        kinds = ["det", "det", "det", "uniform", "uniform", "uniform", "dict"]
+        kinds = ["det", "det", "uniform", "uniform", "dict", "plain", "plain"]     # plain = QuickMDP(next_state= / initial_state=)
         case["repr"] = rng.choice(kinds) + "/" + rng.choice(kinds)
     # heuristic (as a COST per state; msdm gets heuristic_value = -cost)
     d = exact_dist(case)
@@ -255,7 +255,7 @@ def gen_case(rng, scenario=None):
         r = rng.random()
         scenario = "two_wrappers" if r < .18 else "nested_h" if r < .34 else "edit_replan" if r < .48 else "plain"
     case["scenario"] = scenario
-    qk = ["det", "det", "det", "uniform", "uniform", "uniform", "dict"]
+    qk = ["det", "det", "uniform", "uniform", "dict", "plain", "plain"]
     if (scenario != "plain" and case["repr"] == "next_state") or (scenario == "edit_replan" and "/" not in case["repr"]):
         case["repr"] = rng.choice(qk) + "/" + rng.choice(qk)          # must go through from_mdp's wrapper
     if scenario == "nested_h":
@@ -294,15 +294,25 @@ def gen_case(rng, scenario=None):
     if scenario == "edit_replan":
         case["tabular"] = False
         case["edit_mode"] = rng.choice(["inplace", "inplace", "copy", "there_and_back"])
+        case["planner_table"] = rng.random() < .6       # one planner object for the whole history, heuristic read from an edited table
         case["edited"] = gen_edit(rng, case)
+        if case["planner_table"]:
+            case["replan"] = False
         if case["edited"]["num_type"] != case["num_type"]:
             case["num_type"] = "float"
     if scenario == "two_wrappers":
         other = gen_case(rng, scenario="second_wrapper")
-        if rng.random() < .4:     # ONE A* object and ONE BFS object plan on both problems (zero heuristic fits both)
+        if rng.random() < .5:     # ONE A* object and ONE BFS object plan on both problems
             case["shared_planner"] = True
-            for c in (case, other):
-                c["heuristic"], c["h"], c["h_scale"] = "zero", [0] * c["n"], [1, 1]
+            if rng.random() < .5 and case["labels"] != "perm":
+                # the heuristic reads a table the caller refills between the calls; same label scheme on both problems, so
+                # the same labels carry different heuristic values
+                case["planner_table"] = True
+                other["labels"] = case["labels"]
+                other["h_scale"] = [1, 1] if other["h_scale"][1] & (other["h_scale"][1] - 1) else other["h_scale"]
+            else:                 # zero heuristic fits both
+                for c in (case, other):
+                    c["heuristic"], c["h"], c["h_scale"] = "zero", [0] * c["n"], [1, 1]
             if "float32" in (case["num_type"], other["num_type"]):
                 case["num_type"] = other["num_type"] = "float"
             for k in ("tie", "shuffle", "seed", "bfs_seed", "num_type", "assert_monotone"):
@@ -405,7 +415,9 @@ def features(case):
             "seed_0": case.get("seed") == 0 or case.get("bfs_seed") == 0, "start_0": case["start"] == 0, "single_state": case["n"] == 1,
             "near_tie_large_totals": near_tie_large(case, d), "min_steps_eq_n_minus_1": du is not None and du == case["n"] - 1 and case["n"] > 2,
             "min_steps_ge_1000": du is not None and du >= 1000, "every_state_at_most_one_action": all(len(r) <= 1 for r in case["succ"]) and case["n"] > 1,
-            "h_scale_%d_%d" % tuple(case.get("h_scale", [1, 1])): True, "late_policy_read": case.get("late_policy", False), "edit_mode_" + case.get("edit_mode", "none"): True,
+            "h_scale_%d_%d" % tuple(case.get("h_scale", [1, 1])): True, "late_policy_read": case.get("late_policy", False), "planner_reads_edited_table": case.get("planner_table", False),
+            "ctor_next_state_plain": case["repr"].endswith("/plain"), "ctor_initial_state_plain": case["repr"].startswith("plain/"),
+            "ctor_mixed_spelling": "/" in case["repr"] and (case["repr"].startswith("plain/") != case["repr"].endswith("/plain")), "edit_mode_" + case.get("edit_mode", "none"): True,
             "start_moved_by_edit": "edited" in case and case["edited"]["start"] != case["start"],
             "n_states_eq_n_action_labels": case["n"] == len({a for r in case["succ"] for a, _, _ in r}) and case["n"] > 1}
 
@@ -585,7 +597,8 @@ def run(ctx):
                                    "failing_clause": {"clause": "nested search on the relaxed problem reports a path value that is not the least cost",
                                                       "reported": v, "least": want}}, found=True)
         gt = graph_term(case)
-        kinds = [] if case["repr"] == "next_state" else ["det", "det"] if case["repr"] == "dspdist" else case["repr"].split("/")
+        kinds = [] if case["repr"] == "next_state" else ["det", "det"] if case["repr"] == "dspdist" else \
+            ["det" if k == "plain" else k for k in case["repr"].split("/")]
         # the initial distribution is always read; a next-state distribution only if the start gets expanded
         expands = not case["goal"][case["start"]] and bool(case["succ"][case["start"]])
         model_accepts = all(model_reads[k] for k in (kinds if expands else kinds[:1]))
